@@ -107,7 +107,10 @@ impl TextArchive {
 
         let mut archive = BinArchive::new(self.endian);
         archive.allocate_at_end(bytes.len());
-        archive.write_bytes(0, &bytes)?;
+        // An archive without title and messages has no data; write_bytes rejects address 0 then.
+        if !bytes.is_empty() {
+            archive.write_bytes(0, &bytes)?;
+        }
         for (label, address) in label_info {
             archive.write_label(address, label)?;
         }
